@@ -507,6 +507,9 @@ func (sp SynthSpec) Synthesize() (stream []byte, data []byte, strict bool, shape
 	if kinds == "M" {
 		return sp.synthManyLong(r)
 	}
+	if kinds == "H" {
+		return sp.synthHole(r)
+	}
 	for b := 0; b < sp.Blocks; b++ {
 		final := b == sp.Blocks-1
 		fault := ""
@@ -951,4 +954,59 @@ func (sp SynthSpec) synthManyLong(r *Rng) (stream []byte, data []byte, strict bo
 		shape += "M"
 	}
 	return w.bytes(), out, false, shape
+}
+
+// synthHole: a literal/length code with two 13-bit codes 'Y' and 'Z' sharing one 12-bit prefix (one
+// long-code group).  Block A uses the complete code and emits 'Z'; block B uses the same code WITHOUT
+// 'Z' (an incomplete code: Z's former code word is unassigned) and emits exactly that code word,
+// followed by the end-of-block code.  A conforming inflater reports corrupt input at the hole; a
+// decoder whose long-code table keeps entries of an earlier table decodes a stale 'Z'.
+// Size selects what is produced: 0 = A (non-final) then B (final) in one stream; 1 = A only;
+// 2 = B only (for Reader reuse: A, Reset, B).
+func (sp SynthSpec) synthHole(r *Rng) (stream []byte, data []byte, strict bool, shape string) {
+	w := &bitW{}
+	var out []byte
+	base := make([]int, 286)
+	base['a'] = 1
+	base[256] = 2
+	for i := 0; i < 10; i++ {
+		base['b'+i] = 3 + i // 3..12
+	}
+	first := 'Y' - r.Intn(20) // two symbols with 13-bit codes
+	second := first + 1 + r.Intn(5)
+	base[first], base[second] = 13, 13
+	distLens := make([]int, 30)
+	blockA := func(final bool) {
+		dynHeader(r, w, final, base, distLens, r.Intn(2), 0, "")
+		toks := []tok{{Lit: 'a'}, {Lit: byte(second)}, {Lit: byte(first)}, {Lit: 'b'}}
+		for _, t := range toks {
+			out = append(out, t.Lit)
+		}
+		writeTokens(w, toks, base, distLens, true)
+		shape += "A"
+	}
+	blockB := func() {
+		lensB := append([]int{}, base...)
+		lensB[second] = 0
+		dynHeader(r, w, true, lensB, distLens, r.Intn(2), 0, "")
+		writeTokens(w, []tok{{Lit: 'a'}}, lensB, distLens, false)
+		out = append(out, 'a')
+		hole := canonCodes(base)[second]
+		w.code(hole, 13)
+		lc := canonCodes(lensB)
+		w.code(lc[256], uint(lensB[256]))
+		shape += "B!"
+	}
+	switch sp.Size {
+	case 1:
+		blockA(true)
+		return w.bytes(), out, true, shape
+	case 2:
+		blockB()
+		return w.bytes(), out, false, shape
+	default:
+		blockA(false)
+		blockB()
+		return w.bytes(), out, false, shape
+	}
 }
